@@ -189,6 +189,10 @@ def run(ctx):
     for mu_fixed in (4.0, -3.5, 6.0, 2.0):
         cases.append({"cls": "VonMisesDistribution", "theta": {"kappa": 2.0, "mu": mu_fixed}, "fixed": {"mu": mu_fixed}, "fit": True, "data": "own",
                       "n": 300, "seed": rng.randrange(10 ** 6)})
+    # Weibull with a fixed location ABOVE some of the observations (data of another family): the fixed value is kept all the same
+    for fixed in ({"gamma": 1.0}, {"gamma": 1.0, "alpha": 2.0}, {"gamma": 1.0, "beta": 1.5}, {"gamma": 1.5}):
+        cases.append({"cls": "WeibullDistribution", "theta": {"alpha": 2.0, "beta": 1.5, "gamma": fixed["gamma"]}, "fixed": dict(fixed), "fit": True,
+                      "data": "other", "n": 200, "seed": rng.randrange(10 ** 6)})
     # least squares with delta fixed (the supported lsq subset), other lsq subsets must raise NotImplementedError
     for w in (None, "linear", "quadratic", "cubic"):
         th = D.rand_params(rng, "ExponentiatedWeibullDistribution")
